@@ -1107,3 +1107,168 @@ theorem LInv.writeback {b0 : Book} {o i : Nat} {rest rest' : List Nat} {f f2 : F
         exact ⟨p0, a1, a2⟩
 
 end Sge.Core
+
+namespace Sge.Core
+open Sge Sge.Genesis
+
+/-- re-queueing a participation that is not waiting any more keeps the loop invariant -/
+theorem LInv.requeue {b0 : Book} {o i : Nat} {rest : List Nat} {f : FInfo} (h : LInv b0 o rest f) (p : Part) (e : PExp)
+    (hp : f.book.getPart i = some p) (hel : p.eligiblePre = true) (hnf0 : p.notFilled = 0) (hiu : i ∉ f.uq) :
+    LInv b0 o rest (requeue f p e o) := by
+  obtain ⟨r1, r2, r3, r4, r5, r6, r7, r8, r9, r10, ⟨p4, r11, r12, r13⟩, r14, r15⟩ := requeue_spec o i f p e h.s h.q h.hasQ hp hel hnf0 hiu
+  have hcore := requeue_core f p e o
+  obtain ⟨rq, hrq⟩ := h.pre
+  have hne : ∀ j ∈ rest, j ≠ i := by
+    intro j hj c
+    apply hiu
+    rw [hrq, ← c]
+    exact List.mem_append_left _ hj
+  refine ⟨r1, r2, r3, r5.trans h.pc, r6.trans h.uid, ⟨rq ++ [i], by rw [r4, hrq, List.append_assoc]⟩, ?_, ?_, ?_, ?_, ?_, ?_⟩
+  · intro j hj pe hit
+    rw [r14 j (hne j hj)] at hit
+    obtain ⟨a1, a2⟩ := h.memP j hj pe hit
+    exact ⟨by rw [r7 j (hne j hj)]; exact a1, by rw [r8 o j (hne j hj)]; exact a2⟩
+  · intro j hj o'
+    rw [r15, r8 o' j (hne j hj)]
+    exact h.memX j hj o'
+  · intro j p' hp'
+    rw [hcore.2.1]
+    by_cases hj : j = i
+    · rw [hj] at hp' ⊢
+      rw [r11] at hp'
+      cases hp'
+      obtain ⟨p0, a1, a2, a3⟩ := h.partRel i p hp
+      exact ⟨p0, a1, a2.trans r12.symm, by rw [r13]; exact a3⟩
+    · rw [r7 j hj] at hp'
+      exact h.partRel j p' hp'
+  · intro o' j
+    rw [r9 o' j, hcore.2.1]; exact h.totE o' j
+  · intro o' j
+    rw [r10 o' j, hcore.2.1]; exact h.totB o' j
+  · intro fl hfl
+    rw [hcore.2.1] at hfl
+    exact h.fwf fl hfl
+
+theorem FInfo.item_congr {f f' : FInfo} (h : f'.fmap = f.fmap) (i : Nat) : f'.item i = f.item i := by
+  unfold FInfo.item; rw [h]
+
+/-- one visit of the wager loop -/
+theorem visit_LInv (b0 : Book) (o : Nat) (ov mult : Dec) (mo : List Nat) (ms : List (Nat × Dec)) (thr : Int)
+    (f : FInfo) (i : Nat) (rest : List Nat) (hmo : mo.Nodup) (h : LInv b0 o (i :: rest) f) :
+    (visit o ov mult mo ms thr f i).err = true ∨ LInv b0 o rest (visit o ov mult mo ms thr f i) ∨
+    ((visit o ov mult mo ms thr f i).payoutProfit.raw < PREC ∧ LInv b0 o [] (visit o ov mult mo ms thr f i)) := by
+  unfold visit
+  cases hitem : f.item i with
+  | none => exact Or.inl rfl
+  | some pe =>
+    right
+    simp only
+    obtain ⟨rq, huq⟩ := h.pre
+    have huq : f.uq = i :: (rest ++ rq) := huq
+    obtain ⟨hgp, hge⟩ := h.memP i (List.mem_cons_self ..) pe hitem
+    obtain ⟨hnd, hmem⟩ := h.q o f.uq (by simp [qvOf])
+    have hnd' := hnd
+    rw [huq, List.nodup_cons] at hnd'
+    have hnotR : i ∉ rest := fun c => hnd'.1 (List.mem_append_left _ c)
+    obtain ⟨_, _, e', he', hunf⟩ := hmem i (by rw [huq]; exact List.mem_cons_self ..)
+    rw [hge] at he'
+    cases he'
+    obtain ⟨k1, k2, k3⟩ := Book.getExp_key hge
+    have hpi := Book.getPart_idx hgp
+    -- stage 1
+    obtain ⟨Δb, Δπ, s1, s2, s3, s4, s5, s6, s7, s8, s9, s10, s11, s12, s13, s14, s15, s16, s17⟩ := stage1_spec o ov mult thr f pe
+    generalize stage1 o ov mult thr f pe = x1 at s1 s2 s3 s4 s5 s6 s7 s8 s9 s10 s11 s12 s13 s14 s15 s16 s17 ⊢
+    obtain ⟨p1, e1, cl, f1⟩ := x1
+    simp only at s1 s2 s3 s4 s5 s6 s7 s8 s9 s10 s11 s12 s13 s14 s15 s16 s17
+    have hS1 : SInv f1.book (fun _ => True) := SInv.of_stores h.s s7 s8 s9 s11 s12 (by rw [s10]) (by rw [s10]; exact h.s.sQ)
+    have hgq1 : ∀ o', f1.book.getQueue o' = f.book.getQueue o' := fun o' => Book.getQueue_congr s10 o'
+    have hge1 : ∀ o' j, f1.book.getExp o' j = f.book.getExp o' j := by intro o' j; unfold Book.getExp; rw [s8]
+    have hgp1 : ∀ j, f1.book.getPart j = f.book.getPart j := by intro j; unfold Book.getPart; rw [s7]
+    have hQ1 : QV f1.book (qvOf f1.book o f1.uq) := by
+      apply QV.mono h.q s11
+      intro o'' q' hq'
+      have hq0 : qvOf f.book o f.uq o'' = some q' := by
+        unfold qvOf at hq' ⊢
+        rw [s14, hgq1] at hq'; exact hq'
+      refine ⟨(h.q o'' q' hq0).1, fun j hj => Or.inl ⟨q', hq0, hj, ?_⟩⟩
+      intro ⟨y, hy1, hy2⟩
+      exact ⟨y, by rw [hge1]; exact hy1, hy2⟩
+    have hfl : (f1.fulfs = f.fulfs ∧ Δb = 0 ∧ Δπ = 0) ∨ f1.fulfs = f.fulfs ++ [{ addr := pe.1.addr, idx := i, bet := Δb, profit := Δπ }] := by
+      rw [← hpi]; exact s6
+    have hsumI : sumBy (unfAt i) f.book.pexps ≥ 1 := by
+      have := sumBy_ge_mem (unfAt i) _ (fun y _ => unfAt_nonneg i y) pe.2 k3
+      rw [unfAt_eq k2, hunf] at this
+      simpa using this
+    have hnfP := h.s.nf i pe.1 trivial hgp
+    cases cl with
+    | true =>
+      left
+      -- stage 2
+      obtain ⟨t1, t2, t3, t4, t5, t6, t7⟩ := stage2_closed o i mo ms thr p1 e1 f1 pe.1 pe.2 (rest ++ rq) hmo hS1 hQ1
+        (by rw [hgq1]; exact h.hasQ) (by rw [s14]; exact huq) (by rw [hgp1]; exact hgp) ⟨s1.trans hpi, s3⟩
+        (by rw [hge1]; exact hge) hunf (by
+          intro o'
+          rw [s16, hge1]
+          exact h.memX i (List.mem_cons_self ..) o')
+      generalize stage2 o mo ms thr (p1, e1, true, f1) = x2 at t1 t2 t3 t4 t5 t6 t7 ⊢
+      obtain ⟨p2, e2, f2⟩ := x2
+      simp only at t1 t2 t3 t4 t5 t6 t7
+      have hL3 : LInv b0 o rest { f2 with book := (f2.book.setExp e2).setPart p2 } := by
+        apply LInv.writeback h pe hgp hge hnotR p2 e2 true Δb Δπ (t4.trans s15) (t5.trans s16)
+          (t1.parts.trans s7) (t1.hist.trans s9) (t1.pc.trans s11) (t1.uid.trans s13)
+        · intro o' j hj; rw [t1.ge o' j hj, hge1]
+        · exact t1.stored
+        · intro o'; rw [t1.cur o', hge1]
+        · exact t1.hasQ
+        · exact t1.s
+        · exact t1.rndI
+        · rw [t3]; exact t1.q
+        · exact ⟨t1.idx, t1.addr.trans s2, t1.tb.trans s4⟩
+        · rw [t2, s5]
+        · rw [t1.nfI, unfAt_eq k2, hunf, unfAt_eq (by rw [t2, s5]; exact k2), t2]
+          simp
+        · intro _; rw [t3]; exact hnd'.1
+        · rw [t6]; exact hfl
+        · exact ⟨rq, t3⟩
+        · exact fun j hj => hj
+      unfold stage3
+      simp only
+      split
+      · rename_i hc
+        simp only [Bool.and_eq_true, beq_iff_eq] at hc
+        exact LInv.requeue (i := i) hL3 p2 e2 (by show Book.getPart _ i = some p2; rw [← t1.idx]; exact Book.getPart_setPart_self _ _) hc.2 hc.1
+          (by show i ∉ f2.uq; rw [t3]; exact hnd'.1)
+      · exact hL3
+    | false =>
+      right
+      have hpp : f1.payoutProfit.raw < PREC := s17 rfl
+      have hx2 : stage2 o mo ms thr (p1, e1, false, f1) = (p1, e1, f1) := by
+        unfold stage2; simp
+      rw [hx2]
+      have hL3 : LInv b0 o [] { f1 with book := (f1.book.setExp e1).setPart p1 } := by
+        apply LInv.writeback h pe hgp hge hnotR p1 e1 false Δb Δπ s15 s16 s7 s9 s11 s13
+        · intro o' j _; exact hge1 o' j
+        · rw [hge1]; exact hge
+        · intro o'; rw [hge1]
+        · rw [hgq1]; exact h.hasQ
+        · exact hS1.weaken (fun _ _ => trivial)
+        · exact hS1.rnd i trivial
+        · exact hQ1
+        · exact ⟨s1.trans hpi, s2, s4⟩
+        · rw [s5, hunf]
+        · rw [s8, ← hnfP, s3, unfAt_eq k2, hunf, unfAt_eq (by rw [s5]; exact k2), s5, hunf]
+          simp
+        · intro c; cases c
+        · exact hfl
+        · exact ⟨f1.uq, rfl⟩
+        · intro j hj; cases hj
+      unfold stage3
+      simp only
+      have hne0 : (p1.notFilled == 0) = false := by
+        rw [s3]
+        have : pe.1.notFilled ≠ 0 := by omega
+        simpa using this
+      simp only [hne0, Bool.false_and, Bool.false_eq_true, if_false]
+      exact ⟨hpp, hL3⟩
+
+end Sge.Core
